@@ -532,6 +532,32 @@ func checkC03(c *Ctx, r *Report) {
 				fmt.Sprintf("the piece write is reachable without validated index (%v: %s) or without payload length == piece length (%v): an over-long payload would overwrite the following piece on disk", okB, why, okLen))
 		}
 	}
+	// R8: WritePiece resets the piece to empty whenever writePiece fails, so a
+	// failure must not be reported once the piece was recorded complete (status
+	// persisted, counter incremented): the piece would be empty but still counted,
+	// its retry counted twice, and the commit would fire one piece early.
+	r8 := r.Rule("R8", "E-ORDER(paths)", "in writePiece every path on which the status recorder (markPieceComplete) returned nil ends in a return that is provably nil (no later failure, no deferred closure that can overwrite the result)", 1)
+	if wpi := r.MustFunc(r8, "(*"+pkgAgentSt+".Torrent).writePiece"); wpi != nil {
+		for _, mc := range callsInNamed(wpi, "(*"+pkgAgentSt+".Torrent).markPieceComplete") {
+			n, bad := 0, 0
+			var where ssa.Instruction = mc.Instr
+			forEachPath(wpi, 5000, func(p Path) {
+				if !p.hasInstr(mc.Instr) || !p.succeeded(mc.Instr) {
+					return
+				}
+				n++
+				ret := p.ret()
+				if ret == nil || classifyReturn(ret) != RetSuccess {
+					bad++
+					if ret != nil {
+						where = ret
+					}
+				}
+			})
+			r.Check(n > 0 && bad == 0, r8, wpi, "no failure after the piece is recorded complete", where, fmt.Sprintf("%d path(s) after the recorder succeeded, all return nil", n),
+				fmt.Sprintf("%d of %d paths on which the piece was already recorded complete can still report failure (e.g. through a deferred close that overwrites the result): WritePiece then marks a counted piece empty, its retry is counted twice and the torrent commits one piece early", bad, n))
+		}
+	}
 	// all indexings of Torrent.pieces
 	for _, fn := range c.FuncsIn(pkgAgentSt) {
 		if c.isFixture(fn) {
